@@ -6,6 +6,9 @@ A divergence is a VIOLATION when the operands violate no documented precondition
 or when they violate exactly one and an exception is involved (the property text: "nor the
 exception type raised for an input that violates a single documented precondition").  Operands
 that violate two or more preconditions at once (pow(b, -1, 0)) are logged as observations.
+
+thorough tier, wave 2: alphabet() grows to 249 values (KS_DEEP); pow3/ipow3/_mult_modulo_bytes keep pow_alphabet()
+for base/exponent/factors but meet odd moduli at every word count 1..33 and the special primes of src/mont.c.
 """
 import operator as op
 
@@ -31,24 +34,56 @@ def backends():
 # ---------------------------------------------------------------------------
 KS_FULL = (7, 8, 31, 32, 63, 64, 65, 127, 128, 255, 256, 521, 1024, 2048)
 KS_QUICK = (8, 31, 32, 63, 64, 65, 128, 1024)
+# thorough tier, wave 2: the 32-bit slots of IntegerGMP's int conversion (32*j and 32*j +- 1 for j = 1..6, 8),
+# more 64-bit limb boundaries (6, 8, 16, 32, 64 limbs +- 1 bit) and 2^15, 2^16
+KS_DEEP = (15, 16, 33, 95, 96, 97, 129, 159, 160, 161, 191, 192, 193, 257, 383, 384, 385, 511, 512, 513, 1023, 1025,
+           2047, 2049, 4096)
 
 
-def alphabet(quick):
-    v = [0, 1, -1, 2, -2]
-    for k in (KS_QUICK if quick else KS_FULL):
+def _alphabet(ks, seeded_bits):
+    v = []
+    for k in ks:
         for x in (2 ** k - 1, 2 ** k, 2 ** k + 1):
             v += [x, -x]
-    for bits in ((300,) if quick else (300, 1100, 2100)):
+    for bits in seeded_bits:
         x = seeded_int("c16int%d" % bits, bits) | (1 << (bits - 1))
         v += [x, -x]
     return v
 
 
+def pow_alphabet(quick):
+    """operands of the costly three-operand operations (pow3, ipow3, _mult_modulo_bytes) and the quick alphabet"""
+    return [0, 1, -1, 2, -2] + _alphabet(KS_QUICK if quick else KS_FULL, (300,) if quick else (300, 1100, 2100))
+
+
+def alphabet(quick):
+    """operands of every other operation: thorough = pow_alphabet + the KS_DEEP boundaries and two more seeded
+    values (appended, so that indices into pow_alphabet stay valid)"""
+    v = pow_alphabet(quick)
+    if not quick:
+        v = v + _alphabet(KS_DEEP, (700, 4100))
+    return v
+
+
+# moduli that mont.c (custom back-end) treats specially: P-256, P-384, P-521 and the Ed448 prime have their own
+# multiplication/reduction code; the other curve primes and the neighbours p-2, p+2 take the generic path
+SPECIAL_PRIMES = (2 ** 256 - 2 ** 224 + 2 ** 192 + 2 ** 96 - 1, 2 ** 384 - 2 ** 128 - 2 ** 96 + 2 ** 32 - 1, 2 ** 521 - 1,
+                  2 ** 448 - 2 ** 224 - 1, 2 ** 255 - 19, 2 ** 224 - 2 ** 96 + 1, 2 ** 192 - 2 ** 64 - 1)
+WORDS_OLD = (1, 2, 3, 4, 8, 16, 17, 32, 33)
+
+
 def moduli(quick):
-    """odd, even and 1; 1..33 machine words"""
+    """odd, even and 1; 1..33 machine words.  thorough: odd moduli at EVERY word count 1..33 (mont.c works on 64-bit
+    words; the multiplication kernels treat even/odd word counts differently) and the special primes of mont.c"""
     m = [1, 2, 3, 4, 0, -1, -3]
-    for w in ((1, 2, 17) if quick else (1, 2, 3, 4, 8, 16, 17, 32, 33)):
+    for w in ((1, 2, 17) if quick else WORDS_OLD):
         m += [2 ** (64 * w) - 1, 2 ** (64 * w) - 2, 2 ** (64 * w - 1) + 1, 2 ** (64 * w - 1)]
+    if not quick:
+        for w in range(1, 34):
+            if w not in WORDS_OLD:
+                m += [2 ** (64 * w) - 1, 2 ** (64 * w - 1) + 1]
+        for sp in SPECIAL_PRIMES:
+            m += [sp, sp - 2, sp + 2]
     return m
 
 
@@ -174,6 +209,8 @@ def _pow3_tag(a):
         return "modulus-1"
     if b < 0 and m % 2 == 1:
         return "negative-base-odd-modulus"
+    if m in SPECIAL_PRIMES:
+        return "special-modulus"            # mont.c has dedicated code for (some of) these
     return ""
 
 
@@ -186,7 +223,8 @@ _reg("ipow3", lambda K, a: (lambda x: (x, (lambda: x.inplace_pow(_w(K, a[1], a[3
 _reg("_mult_modulo_bytes",
      lambda K, a: (None, (lambda: K._mult_modulo_bytes(_w(K, a[0], a[3]), _w(K, a[1], a[3]), _w(K, a[2], a[3])))),
      pre=lambda a: int(a[0] < 0) + int(a[1] < 0) + int(a[2] <= 0 or a[2] % 2 == 0),
-     tag=lambda a: "modulus-1" if a[2] == 1 else "")
+     tag=lambda a: "modulus-1" if a[2] == 1 else ("special-modulus" if a[2] in SPECIAL_PRIMES and a[0] >= 0 and a[1] >= 0
+                                                  else ""))
 
 
 # modular square roots: args (r, p, form) --------------------------------------------
@@ -385,13 +423,31 @@ UN_OPS = ("int", "str", "repr", "bool", "index", "hex", "abs", "is_negative", "i
 SHIFT_OPS = ("rshift", "irshift", "lshift", "ilshift", "get_bit")
 
 
+CURVE_PRIMES = [2 ** 255 - 19, 2 ** 256 - 2 ** 224 + 2 ** 192 + 2 ** 96 - 1, 2 ** 521 - 1,
+                2 ** 448 - 2 ** 224 - 1, 2 ** 224 - 2 ** 96 + 1]
+# thorough: also P-384 and P-192 (p = 3 mod 4), and secp256k1's prime
+CURVE_PRIMES_DEEP = CURVE_PRIMES + [2 ** 384 - 2 ** 128 - 2 ** 96 + 2 ** 32 - 1, 2 ** 192 - 2 ** 64 - 1,
+                                    2 ** 256 - 2 ** 32 - 977]
+
+
 def int_shards(quick):
     V = alphabet(quick)
-    sh = [("bin", i) for i in range(len(V))]
-    sh += [("pow3", i) for i in range(len(V))]
-    sh += [("mmb", i) for i in range(len(V))]
-    sh += [("unary",), ("shift", 0), ("shift", 1), ("conv",), ("pow2",), ("random",)]
+    P = pow_alphabet(quick)
+    if quick:
+        sh = [("bin", i) for i in range(len(V))]
+        sh += [("pow3", i) for i in range(len(V))]
+        sh += [("mmb", i) for i in range(len(V))]
+        sh += [("unary",), ("shift", 0), ("shift", 1), ("conv",), ("pow2",), ("random",)]
+        sh += [("sqrt", i, 6) for i in range(6)]
+        return [s + (quick,) for s in sh]
+    # thorough: heaviest first
+    sh = [("pow3", i) for i in sorted(range(len(P)), key=lambda i: -abs(P[i]).bit_length())]
+    sh += [("sqrtcurve", pi, part, 4) for pi in range(len(CURVE_PRIMES_DEEP)) for part in range(4)]
+    sh += [("mmb", i) for i in sorted(range(len(P)), key=lambda i: -abs(P[i]).bit_length())]
+    sh += [("bin", i) for i in sorted(range(len(V)), key=lambda i: -abs(V[i]).bit_length())]
+    sh += [("shift", i, 8) for i in range(8)] + [("conv", i, 4) for i in range(4)]
     sh += [("sqrt", i, 6) for i in range(6)]
+    sh += [("unary", i, 4) for i in range(4)] + [("pow2",), ("random",)]
     return [s + (quick,) for s in sh]
 
 
@@ -405,6 +461,7 @@ def int_worker(shards):
 
 def _int_shard(sh, quick, acc):
     V = alphabet(quick)
+    P = pow_alphabet(quick)
     kind = sh[0]
     if kind == "bin":
         a = V[sh[1]]
@@ -415,11 +472,14 @@ def _int_shard(sh, quick, acc):
     elif kind == "unary":
         sq = [v * v for v in V if abs(v) < 2 ** 600] + [v * v + 1 for v in V if abs(v) < 2 ** 600] + \
              [v * v - 1 for v in V if 1 < abs(v) < 2 ** 600]
-        for a in V + sq:
+        vals = V + sq
+        if len(sh) > 1:                                  # thorough: (index, number of slices)
+            vals = vals[sh[1]::sh[2]]
+        for a in vals:
             for name in UN_OPS:
                 int_case(name, (a,), acc)
     elif kind == "shift":
-        for a in V[sh[1]::2]:
+        for a in V[sh[1]::(sh[2] if len(sh) > 2 else 2)]:
             for n in SHIFTS:
                 for name in SHIFT_OPS:
                     if name in ("lshift", "ilshift") and n > 70000:
@@ -427,16 +487,17 @@ def _int_shard(sh, quick, acc):
                     for form in ("I", "i"):
                         int_case(name, (a, n, form), acc)
     elif kind == "conv":
-        for a in V:
+        for a in (V if len(sh) == 1 else V[sh[1]::sh[2]]):
             for bs in BLOCK_SIZES:
                 for bo in ("big", "little", "middle"):
                     int_case("to_bytes", (a, bs, bo), acc)
-        for L in range(0, 40):
-            for pat in (b"\x00", b"\xff", b"\x01", b"\x80", bytes(range(1, 41))):
-                data = (pat * 40)[:L]
-                for bo in ("big", "little", "middle"):
-                    for typ in ("bytes", "bytearray", "memoryview"):
-                        int_case("from_bytes", (data, bo, typ), acc)
+        if len(sh) == 1 or sh[1] == 0:
+            for L in range(0, 40 if quick else 140):
+                for pat in (b"\x00", b"\xff", b"\x01", b"\x80", bytes(range(1, 41))):
+                    data = (pat * 140)[:L]
+                    for bo in ("big", "little", "middle"):
+                        for typ in ("bytes", "bytearray", "memoryview"):
+                            int_case("from_bytes", (data, bo, typ), acc)
     elif kind == "pow2":
         small = [v for v in V if abs(v) < 2 ** 130]
         for a in small:
@@ -445,9 +506,9 @@ def _int_shard(sh, quick, acc):
                     int_case("pow2", (a, e, form), acc)
                     int_case("ipow2", (a, e, form), acc)
     elif kind == "pow3":
-        b = V[sh[1]]
+        b = P[sh[1]]
         M = moduli(quick)
-        E = [v for v in V if v >= 0] + [-1, -2]
+        E = [v for v in P if v >= 0] + [-1, -2]
         for e in E:
             big_e = e.bit_length() > (130 if quick else 600)
             for m in M:
@@ -461,9 +522,9 @@ def _int_shard(sh, quick, acc):
                     if form == "I" and e.bit_length() <= 130:
                         int_case("ipow3", (b, e, m, form), acc)
     elif kind == "mmb":
-        a = V[sh[1]]
+        a = P[sh[1]]
         M = moduli(quick)
-        for b in (V if not quick else [v for v in V if abs(v) < 4 or abs(v).bit_length() in (32, 33, 64, 65, 1024, 1025)]):
+        for b in (P if not quick else [v for v in P if abs(v) < 4 or abs(v).bit_length() in (32, 33, 64, 65, 1024, 1025)]):
             for m in M:
                 for form in ("I", "i"):
                     int_case("_mult_modulo_bytes", (a, b, m, form), acc)
@@ -475,16 +536,22 @@ def _int_shard(sh, quick, acc):
                     int_case("sqrt_mod", (r, p, form), acc)
                 if 0 <= r < p:
                     int_case("_tonelli_shanks", (r, p), acc)
-        if sh[1] == 0:
+        if sh[1] == 0 and quick:
             # curve primes (p = 3 mod 4 and p = 1 mod 4, 5 mod 8) with seeded residues
-            cps = [2 ** 255 - 19, 2 ** 256 - 2 ** 224 + 2 ** 192 + 2 ** 96 - 1, 2 ** 521 - 1,
-                   2 ** 448 - 2 ** 224 - 1, 2 ** 224 - 2 ** 96 + 1]
-            for p in cps:
-                for i in range(8 if quick else 40):
+            for p in CURVE_PRIMES:
+                for i in range(8):
                     r = seeded_int("c16sqrt%d" % i, p.bit_length() + 8) % p
                     for form in ("I", "i"):
                         int_case("sqrt_mod", (r, p, form), acc)
                         int_case("sqrt_mod", (r * r % p, p, form), acc)
+    elif kind == "sqrtcurve":
+        # thorough: one curve prime per shard group, 40 seeded residues (and their squares) + the boundary residues
+        p = CURVE_PRIMES_DEEP[sh[1]]
+        rs = [seeded_int("c16sqrt%d" % i, p.bit_length() + 8) % p for i in range(40)] + [0, 1, 2, 4, p - 1, p - 4, p, p + 1]
+        for r in rs[sh[2]::sh[3]]:
+            for form in ("I", "i"):
+                int_case("sqrt_mod", (r, p, form), acc)
+                int_case("sqrt_mod", (r * r % p, p, form), acc)
     elif kind == "random":
         for bits in range(1, 131 if not quick else 71):
             for k in ("exact", "max"):
